@@ -303,15 +303,32 @@ func Concurrent(r *verifkit.Run, rng *rand.Rand, calls []Call, workers int) {
 }
 
 // OverlapPhase runs nBatches overlapped batches of 2..8 calls and nConc concurrent rounds
-// (4 workers, 24 calls) with calls drawn by gen.  A phase in which no answer with data was
+// (4 workers, 24 calls) with calls drawn by gen (half of the batches restricted to one
+// API, half to one storage format, a quarter to both).  A phase in which no answer with data was
 // consumed after a later call was issued has not exercised anything: inconclusive.
 func OverlapPhase(r *verifkit.Run, stream string, base, nBatches, nConc int, gen func(rng *rand.Rand) Call) {
 	before := r.Counter("overlap_answers_read_after_later_calls")
 	for b := 0; b < nBatches; b++ {
 		rng := r.Rand(stream+"-overlap", base+b)
 		calls := make([]Call, 2+rng.IntN(7))
+		// three of four batches are focused: all calls go through the API of the first one
+		// (b%4 = 1, 3) and/or to objects stored in the same format (b%4 = 2, 3): answers
+		// that share a code path are the ones most likely to share state
+		focusAPI, focusFmt := b%2 == 1, b%4 >= 2
 		for i := range calls {
 			calls[i] = gen(rng)
+			for try := 0; i > 0 && try < 60; try++ {
+				if (!focusAPI || calls[i].API == calls[0].API) && (!focusFmt || calls[i].O.Format == calls[0].O.Format) {
+					break
+				}
+				calls[i] = gen(rng)
+			}
+		}
+		if focusAPI {
+			r.Count("overlap_batches_on_one_api", 1)
+		}
+		if focusFmt {
+			r.Count("overlap_batches_on_one_format", 1)
 		}
 		Overlapped(r, rng, calls)
 	}
